@@ -5,6 +5,7 @@ import (
 	"bytes"
 	"encoding/binary"
 	"fmt"
+	"github.com/influxdata/influxdb/pkg/verifhook"
 	"io"
 	"math"
 	"os"
@@ -299,6 +300,7 @@ func (l *WAL) scheduleSync() {
 // a write lock on the WAL is obtained before calling sync.
 func (l *WAL) sync() {
 	err := l.currentSegmentWriter.sync()
+	verifhook.At("wal.synced", l.currentSegmentWriter.path(), int64(l.currentSegmentWriter.size))
 	for len(l.syncWaiters) > 0 {
 		errC := <-l.syncWaiters
 		errC <- err
@@ -362,6 +364,7 @@ func (l *WAL) Remove(files []string) error {
 	for _, fn := range files {
 		l.traceLogger.Info("Removing WAL file", zap.String("path", fn))
 		os.RemoveAll(fn)
+		verifhook.At("wal.remove", fn, 0)
 	}
 
 	// Refresh the on-disk size stats
@@ -434,6 +437,7 @@ func (l *WAL) writeToLog(entry WALEntry) (int, error) {
 		if err := l.currentSegmentWriter.Write(entry.Type(), compressed); err != nil {
 			return -1, fmt.Errorf("error writing WAL entry: %v", err)
 		}
+		verifhook.At("wal.append", l.currentSegmentWriter.path(), int64(l.currentSegmentWriter.size))
 
 		select {
 		case l.syncWaiters <- syncErr:
@@ -574,6 +578,7 @@ func (l *WAL) newSegmentFile() error {
 		return err
 	}
 	l.currentSegmentWriter = NewWALSegmentWriter(fd)
+	verifhook.At("wal.roll", fileName, 0)
 
 	// Reset the current segment size stat
 	atomic.StoreInt64(&l.stats.CurrentBytes, 0)
@@ -1083,6 +1088,7 @@ func (w *WALSegmentWriter) sync() error {
 	if err := w.bw.Flush(); err != nil {
 		return err
 	}
+	verifhook.At("wal.flushed", w.path(), int64(w.size))
 
 	if f, ok := w.w.(*os.File); ok {
 		return f.Sync()
